@@ -455,7 +455,7 @@ def cmd_to_op(cmd):
     """a real Command -> spec-like op (numeric parameters)"""
     from strawberryfields.parameters import par_evaluate
     pars = []
-    for p in par_evaluate(cmd.op.p):
+    for p in (par_evaluate(cmd.op.p) if getattr(cmd.op, "p", None) else []):
         if isinstance(p, np.ndarray) and p.ndim == 2:
             if np.iscomplexobj(p):
                 pars.append(dict(mat=[[[float(z.real), float(z.imag)] for z in row] for row in p]))
